@@ -93,6 +93,17 @@ CHECKS["C03"] = {
     "note": TB + "; the lexer/concretiser pair alpha/gamma and the char-level matcher locate()",
 }
 
+CHECKS["C02"] = {
+    "text": "BibGrammar.tla states the supported dialect as a grammar-directed recogniser (Doc/Entry/Field/Value/Piece/"
+            "Braced/Quoted) that returns ground-truth blocks; TLC checks on every explored input of MC_Splitter that "
+            "Recognise(src).ok implies scanner blocks = grammar blocks with none failed (InvGrammar; 1.1e4 recognised inputs "
+            "in quick), replays those inputs into Splitter.split, and validates a constructive product (templates x 25 values "
+            "x 7 whitespace choices x commas x gaps) and seeded random derivations three ways: grammar = scanner spec "
+            "(TLC), spec = generator ground truth, code (Splitter.split and parse_string(parse_stack=[])) = both.",
+    "ref": "6/C02", "technique": "TLA+ grammar recogniser vs operational spec (TLC invariant) + bounded-exhaustive replay + TLC-validated derivations with ground truth",
+    "note": TB + "; the dialect is the grammar stated in DESIGN 3.3; the derivation generator docgen.py",
+}
+
 NOT_APPLICABLE = {}
 for _e in ENGINES:
     _e["serves_properties"] = sorted(CHECKS)
